@@ -183,8 +183,53 @@ def r16_2(ctx, prog, crate):
                 # early return inside the loop only on a non-equal ordering; after the loop: Equal
                 if ok:
                     _first_non_equal(ctx, c, lp, path)
+        if not ok:
+            ok = _first_non_equal_chain(prog, c, wt[0])
         ctx.check(ok, "R16.2", [path, "dispatch-on-table-item"],
                   "the per-attribute dispatch is not a loop over the tie-breaker table items", c.where(0))
+
+
+def _first_non_equal_chain(prog, c, wt):
+    """The same as an iterator chain: with_tie_breakers(attr).into_iter().map(|a| <dispatch on a>).find(|o| o.is_ne())
+    .unwrap_or(Equal) - the first attribute that tells the two apart decides, Equal when none does."""
+    def closure_arg(call, k):
+        a = call.args[k] if len(call.args) > k else None
+        if a is not None and a.get("k") in ("copy", "move") and not a["p"]["proj"]:
+            for d in c.prov.defs.get(a["p"]["l"], []):
+                if d[0] == "S" and d[3]["rv"]["k"] == "agg" and d[3]["rv"].get("ak") == "closure":
+                    return prog.bodies.get((c.crate, norm(d[3]["rv"]["def"]), -1))
+        return None
+
+    def one(suffix):
+        r = [x for x in c.live_calls() if "Iterator" in x.callee.rsplit("::", 1)[0] and x.callee.rsplit("::", 1)[-1] == suffix]
+        return r[0] if len(r) == 1 else None
+    mp, fd = one("map"), one("find")
+    uo = [x for x in c.live_calls() if x.callee == "std::option::Option::unwrap_or"]
+    if mp is None or fd is None or len(uo) != 1 or c.loops:
+        return False
+    uo = uo[0]
+
+    def feeds(a, b_):   # call a's result flows into call b_'s first argument
+        return any(z.kind == "call" and z.b == a.bb for z in c.prov.op_src(b_.args[0]))
+    if not (feeds(wt, mp) and feeds(mp, fd) and feeds(fd, uo)):
+        return False
+    d0 = c.prov.defs.get(0, [])
+    # the function's result is that call's - or Equal, returned early before the chain (the same entry compared with itself)
+    chain_defs = [d for d in d0 if d[0] == "C" and d[1] == uo.bb]
+    early = [d for d in d0 if d[0] == "S" and d[3]["rv"]["k"] == "agg" and d[3]["rv"].get("variant") == "Equal" and wt.bb not in c.reach([d[1]])]
+    if len(chain_defs) != 1 or len(chain_defs) + len(early) != len(d0):
+        return False
+    dflt = {z.a for z in c.prov.op_src(uo.args[1]) if z.kind == "variant"}
+    if dflt != {"std::cmp::Ordering::Equal"}:
+        return False
+    m, f = closure_arg(mp, 1), closure_arg(fd, 1)
+    if m is None or f is None or [q.callee for q in f.live_calls()] != ["std::cmp::Ordering::is_ne"]:
+        return False
+    # the mapping closure dispatches on its own parameter
+    for bi, t, base in tables.discr_switches(m):
+        if m.local_ty(base) == "config::SortingAttr" and {z.label() for z in m.prov.local_src(base)} == {"param:" + m.param_name(2)}:
+            return True
+    return False
 
 
 def _first_non_equal(ctx, c, lp, path):
